@@ -120,11 +120,48 @@ func baseConfig(foundation *common.Uint168) *config.Configuration {
 type v2Arbiters struct {
 	*state.Arbiters
 	active uint32
+	// cc: the current cross-chain arbiter set as the simulated environment
+	// reports it (C33: "a controlled arbiter set"); electing one for real needs
+	// a CR/producer history. nil: the real answers.
+	cc []*state.ArbiterInfo
 }
 
-func (a *v2Arbiters) GetDPoSV2ActiveHeight() uint32 { return a.active }
+func (a *v2Arbiters) GetDPoSV2ActiveHeight() uint32 {
+	if a.active == 0 {
+		return a.Arbiters.GetDPoSV2ActiveHeight()
+	}
+	return a.active
+}
 
-func newNode(dir string, cfg *config.Configuration, minerAddr string, v2active uint32) (*node, error) {
+func (a *v2Arbiters) GetCrossChainArbiters() []*state.ArbiterInfo {
+	if a.cc == nil {
+		return a.Arbiters.GetCrossChainArbiters()
+	}
+	return a.cc
+}
+
+func (a *v2Arbiters) GetCRCArbiters() []*state.ArbiterInfo {
+	if a.cc == nil {
+		return a.Arbiters.GetCRCArbiters()
+	}
+	return a.cc
+}
+
+func (a *v2Arbiters) GetCrossChainArbitersCount() int {
+	if a.cc == nil {
+		return a.Arbiters.GetCrossChainArbitersCount()
+	}
+	return len(a.cc)
+}
+
+func (a *v2Arbiters) GetCrossChainArbitersMajorityCount() int {
+	if a.cc == nil {
+		return a.Arbiters.GetCrossChainArbitersMajorityCount()
+	}
+	return len(a.cc) * 2 / 3
+}
+
+func newNode(dir string, cfg *config.Configuration, minerAddr string, v2active uint32, cc []*state.ArbiterInfo) (*node, error) {
 	processInit()
 	events.VerifReset()
 	ffldb.Verif = &ffldb.VerifHooks{LdbWriteBuffer: 64 << 10, LdbBlockCache: 64 << 10}
@@ -160,8 +197,8 @@ func newNode(dir string, cfg *config.Configuration, minerAddr string, v2active u
 	n.arbiters = arbiters
 	ledger.Arbitrators = arbiters
 	var arbIface state.Arbitrators = arbiters
-	if v2active > 0 {
-		arbIface = &v2Arbiters{Arbiters: arbiters, active: v2active}
+	if v2active > 0 || cc != nil {
+		arbIface = &v2Arbiters{Arbiters: arbiters, active: v2active, cc: cc}
 		ledger.Arbitrators = arbIface
 	}
 	chain, err := blockchain.New(store, cfg, arbiters.State, n.committee, n.ckp)
